@@ -791,11 +791,40 @@ def registry(d):
         pts = d.CoordinateArray([o + 0.25 * (c - o), o + 0.75 * (c - o)])
         return (lambda: a.subregion(pts)), [a, pts]
 
-    @form("subregion[voxels]", ["S2", "O2u8"])
+    @form("subregion[voxels]", ["S2", "O2u8", "S2s", "V2"])
     def _(ctx, a):
+        # ROI boxes inside the image, touching its border, and sticking out of it (negative / beyond the extent)
         n = a.img.shape
-        pts = d.VoxelArray([[0, 0], [max(1, n[0] - 1), max(1, n[1] - 1)]])
+        lo = [ctx.rng.randint(-3, max(0, n[k] - 2)) for k in range(2)]
+        hi = [ctx.rng.randint(max(lo[k], 0) + 1, n[k] + 3) for k in range(2)]
+        corners = [[lo[0], lo[1]], [hi[0], hi[1]]]
+        if ctx.rng.random() < 0.5:
+            corners += [[lo[0], hi[1]], [hi[0], lo[1]]]
+        pts = d.VoxelArray(corners)
         return (lambda: a.subregion(pts)), [a, pts]
+
+    @form("subregion[coordinates,outside]", ["S2", "O2u8", "S2s"])
+    def _(ctx, a):
+        o, c = np.array(a.origin, dtype=float), np.array(a.opposite_corner, dtype=float)
+        f0, f1 = ctx.rng.choice([-0.4, -0.1, 0.2]), ctx.rng.choice([0.7, 1.2, 1.6])
+        pts = d.CoordinateArray([o + f0 * (c - o), o + f1 * (c - o)])
+        return (lambda: a.subregion(pts)), [a, pts]
+
+    @form("subregion[voxels,reused-roi]", ["S2"])
+    def _(ctx, a):
+        # the same ROI object used on two images of different size: the second call must see the ROI the caller built
+        big = rand_image(ctx, d, "S2", shape=(a.img.shape[0] + 4, a.img.shape[1] + 6))
+        pts = d.VoxelArray([[-1, 1], [a.img.shape[0] + 2, a.img.shape[1] + 3]])
+        expect = call(lambda: big.subregion(d.VoxelArray(np.array(pts).copy())))
+
+        def run():
+            a.subregion(pts)
+            second = big.subregion(pts)
+            if not isinstance(expect, Raised) and second.img.shape != expect.img.shape:
+                raise RuntimeError(f"second use of the ROI gives shape {second.img.shape}, a fresh ROI {expect.img.shape}")
+            return second
+
+        return run, [a, big, pts]
 
     @form("time_slice", ["S2s", "S2sd"])
     def _(ctx, a):
@@ -971,8 +1000,12 @@ def registry(d):
 
     @form("random_patches", ["S2b"])
     def _(ctx, a):
-        mask = np.ones((8, 8), dtype=bool)
-        return (lambda: d.random_patches(mask, width=2, num_patches=3)), [mask]
+        # from "a few patches in a large mask" to "more patches than eligible anchor points" (colliding draws)
+        n0, n1 = ctx.rng.randint(4, 16), ctx.rng.randint(4, 16)
+        mask = np.ones((n0, n1), dtype=bool) if ctx.rng.random() < 0.6 else (nprng(ctx).rand(n0, n1) < 0.7)
+        width = ctx.rng.randint(1, 5)
+        num = ctx.rng.choice([1, 3, 8, 30, 100, n0 * n1 + 5])
+        return (lambda: d.random_patches(mask, width=width, num_patches=num)), [mask, width, num]
 
     return R
 
@@ -1089,6 +1122,7 @@ def run_form(ctx, d, name, kinds, builder, kind=None, operand=None, check_values
     for k, (x, b) in enumerate(zip(args, before)):
         after = snap(x, d)
         if after != b:
+            before[k] = after  # the later-writes oracle compares against the state after the call
             where = diff_path(b, after, f"arg{k}")
             ctx.fail(f"C17:{name}:mutates:{where.split(':')[0]}",
                      f"{name} modified its argument: {where}" + (f" (call raised {res!r})" if isinstance(res, Raised) else ""),
@@ -1156,6 +1190,9 @@ def chains(ctx, d, R, n):
                 tracked.append((res, snap(res, d), f"result-of-{nm}"))
 
 
+BOOST = {"random_patches": 12, "subregion[voxels]": 3, "subregion[coordinates,outside]": 2}
+
+
 def oracle(ctx, d):
     ctx._d = d
     R = registry(d)
@@ -1164,7 +1201,7 @@ def oracle(ctx, d):
     for name in sorted(R):
         kinds, builder = R[name]
         for kind in kinds:
-            for _ in range(reps):
+            for _ in range(reps * BOOST.get(name, 1)):
                 run_form(ctx, d, name, kinds, builder, kind=kind)
     chains(ctx, d, R, ctx.pick(400, 4000))
 
